@@ -12,6 +12,7 @@ mod gen_helpers;
 mod fam_helpers;
 mod fam_sem;
 mod fam_types;
+mod fam_adds;
 
 use ctx::Ctx;
 
@@ -52,6 +53,7 @@ fn main() {
         "helpers" => fam_helpers::run(&mut ctx),
         "sem" => fam_sem::run(&mut ctx),
         "types" => fam_types::run(&mut ctx),
+        "adds" => fam_adds::run(&mut ctx),
         x => {
             eprintln!("unknown family {x}");
             std::process::exit(2);
